@@ -401,7 +401,27 @@ def drain_always():
     return rows
 
 
-GROUPS = ["cancel", "mismatch", "exit", "setdef", "escape", "signals", "sighandler", "termchild", "termexit", "delayloop", "drainloop", "drainexit", "drainalways", "mainloop", "interval", "placeholders", "xml"]
+def verdict_shape():
+    """executor.rs: after the main loop, the verdict recorded during the loop (a timeout) wins over the exit status — in the test
+    loop and in the setup-script loop."""
+    src = strip_comments(read("nextest-runner/src/runner/executor.rs"))
+    rows = []
+    for name in ("run_test_inner", "run_setup_script_inner"):
+        m = re.search(r"async fn " + name + r"\b", src)
+        if not m: raise RuntimeError(f"{name} not found")
+        body = src[m.end():]
+        nxt = re.search(r"\n    (?:pub(?:\(\w+\))? )?(?:async )?fn \w+", body)
+        b = re.sub(r"\s+", " ", body[:nxt.start()] if nxt else body)
+        rows.append((f"{name}: exec_result = status.unwrap_or_else(create_execution_result(exit_status, errors, leaked))",
+                     re.search(r"let exec_result = status \.unwrap_or_else\(\|\| create_execution_result\(exit_status, &child_acc\.errors, leaked\)\);", b) is not None))
+        # the only assignments to `status` inside the loop: the timeout verdict, and (Windows job objects) a kill by the job
+        assigns = re.findall(r"\bstatus = Some\((.*?)\);", b)
+        ok = all(a == "ExecutionResult::Timeout" or a.startswith("ExecutionResult::Fail { abort_status: Some(AbortStatus::JobObject)") for a in assigns) and "ExecutionResult::Timeout" in assigns
+        rows.append((f"{name}: status is only ever set to Timeout (or, on Windows, to a job-object kill)", ok))
+    return rows
+
+
+GROUPS = ["cancel", "mismatch", "exit", "setdef", "escape", "signals", "sighandler", "termchild", "termexit", "delayloop", "drainloop", "drainexit", "drainalways", "verdict", "mainloop", "interval", "placeholders", "xml"]
 
 
 def group_lines(g):
@@ -473,6 +493,10 @@ def group_lines(g):
         rows = drain_always()
         return ["/-- executor.rs: structural facts about the draining of an exited process's pipes -/",
                 "def drainAlways : List (String × Bool) := [" + ", ".join(f'("{a}", {"true" if b else "false"})' for a, b in rows) + "]"]
+    if g == "verdict":
+        rows = verdict_shape()
+        return ["/-- executor.rs: how the attempt's result is put together after the main loop -/",
+                "def verdictShape : List (String × Bool) := [" + ", ".join(f'("{a}", {"true" if b else "false"})' for a, b in rows) + "]"]
     if g == "mainloop":
         keys = {"Stop": r"SignalRequest::Stop\(\w+\)", "Continue": r"SignalRequest::Continue"}
         arms = request_arms(strip_comments(read("nextest-runner/src/runner/executor.rs")), "handle_signal_request", keys)
